@@ -37,12 +37,20 @@ RULE = ("Hypothesis-generated C01-style sessions (commands, replies incl. data b
         "are submitted after the loss. Oracle: every command Deferred fired exactly once - C01 model if its "
         "reply was complete before the cut, TorDisconnectError otherwise; queue_command never raises; no "
         "transport write after the loss; every when_disconnected() Deferred fired exactly once. "
+        "Driver 'api': the same through the public convenience methods (get_info*, get_conf*, set_conf, signal, "
+        "add/remove_event_listener, queue_command): 0..6 calls, the first k answered, 0..12 bytes of the next reply "
+        "delivered, loss, 0..5 further calls; the Deferred each *method* returned must fail once with "
+        "TorDisconnectError (calls that submit no command - a second listener of an event - are not judged). "
         "Non-trivial = cut strictly inside a reply with >=1 command queued behind it, or >=2 submissions "
-        "after the loss; distinct = distinct canonical JSON (for allcuts: session x offset).")
+        "after the loss (api: >=2 unanswered calls, or one plus a post-loss call); distinct = distinct canonical JSON "
+        "(for allcuts: session x offset).")
 ASSUMPTIONS = [
     "connectionLost is delivered once, between dataReceived calls (as a reactor does)",
     "a when_disconnected() Deferred counts as notified whether it fires as callback or errback",
-    "commands submitted after the loss go through the public queue_command/get_info_incremental",
+    "commands submitted after the loss go through the public queue_command/get_info_incremental (drivers cut, "
+    "allcuts) or through any public convenience method that submits one command (driver api)",
+    "driver api: 'every command ... fails with a disconnect error' is judged on the Deferred the public method "
+    "returned to its caller - that is the command's result as an application sees it",
 ]
 
 REASONS = {
@@ -374,20 +382,175 @@ def drive_allcuts(case):
     return res
 
 
-DRIVERS = {"cut": drive_cut, "allcuts": drive_allcuts}
+# --------------------------------------------------------------------------- driver 'api'
+# The same property through the convenience methods applications actually call (they all submit one command):
+# what the *caller* holds is the Deferred those methods return, so that is the "command result" which must fail.
+
+APIS = ["queue_command", "get_info_raw", "get_info", "get_info_single", "get_info_incremental", "get_conf",
+        "get_conf_single", "get_conf_raw", "set_conf", "signal", "add_event_listener", "remove_event_listener"]
+_API_EVENTS = ["CIRC", "STREAM", "ORCONN", "NOTICE", "ADDRMAP", "HS_DESC"]
+
+
+def api_calls(max_size):
+    return st.lists(st.tuples(st.sampled_from(APIS), st.integers(0, 5)).map(list), min_size=0, max_size=max_size)
+
+
+@st.composite
+def api_cases(draw):
+    calls = draw(api_calls(6))
+    return {"calls": calls,
+            "answered": draw(st.integers(0, len(calls))),
+            "partial": draw(st.integers(0, 12)),
+            "reason": draw(st.sampled_from(["done", "lost", "other"])),
+            "post": draw(api_calls(5))}
+
+
+def _api_reply(line):
+    verb = line.split(" ", 1)[0]
+    if verb == "GETINFO":
+        return wire.getinfo_reply([(k, "v-" + k) for k in line.split()[1:]])
+    if verb == "GETCONF":
+        ks = line.split()[1:]
+        return {"code": 250, "parts": [["mid", "%s=v" % k] for k in ks[:-1]], "final": "%s=v" % ks[-1]}
+    return wire.ok()
+
+
+def drive_api(case):
+    res = Result()
+    from vlib.harness import bootstrapped_pipe
+    held = {"on": False}
+
+    def handler(line):
+        if not held["on"]:
+            return NotImplemented
+        try:
+            r = _api_reply(line)
+            return wire.encode_reply(r) if not isinstance(r, bytes) else r
+        except Exception:
+            return wire.encode_reply(wire.ok())
+
+    pipe, srv = bootstrapped_pipe(handler)
+    pipe.auto = False               # from here on replies are delivered by the schedule below
+    held["on"] = True
+    proto = pipe.proto
+    listeners = {}
+    raised = []
+
+    def call(api, n):
+        key = "key%d" % n
+        try:
+            if api == "queue_command":
+                return proto.queue_command("GETINFO " + key)
+            if api == "get_info_raw":
+                return proto.get_info_raw(key)
+            if api == "get_info":
+                return proto.get_info(key)
+            if api == "get_info_single":
+                return proto.get_info_single(key)
+            if api == "get_info_incremental":
+                return proto.get_info_incremental(key, lambda ln: None)
+            if api == "get_conf":
+                return proto.get_conf("Opt%d" % n)
+            if api == "get_conf_single":
+                return proto.get_conf_single("Opt%d" % n)
+            if api == "get_conf_raw":
+                return proto.get_conf_raw("Opt%d" % n)
+            if api == "set_conf":
+                return proto.set_conf("Opt%d" % n, "v")
+            if api == "signal":
+                return proto.signal("NEWNYM")
+            ev = _API_EVENTS[n % len(_API_EVENTS)]
+            # SETEVENTS is only sent for the first listener of an event / when its last listener goes: the other
+            # calls submit no command and are not judged
+            if api == "add_event_listener":
+                cb = (lambda *_a: None)
+                listeners.setdefault(ev, []).append(cb)
+                d = proto.add_event_listener(ev, cb)
+                if len(listeners[ev]) > 1:
+                    res.label("no-command:add_event_listener")
+                    return None
+                return d
+            if api == "remove_event_listener":
+                if not listeners.get(ev):
+                    return None
+                d = proto.remove_event_listener(ev, listeners[ev].pop())
+                if listeners[ev]:
+                    res.label("no-command:remove_event_listener")
+                    return None
+                return d
+        except Exception as e:
+            raised.append((api, repr(e)))
+        return None
+
+    n_before = len(pipe.commands)
+    watches = []
+    for api, n in case["calls"]:
+        d = call(api, n)
+        watches.append((api, Watch(d) if d is not None else None, len(pipe.commands)))
+        pipe.pump()
+    # answer the first `answered` commands completely, then `partial` bytes of the next reply, then lose
+    sent = [ln for ln in pipe.commands[n_before:]]
+    # replies are produced as commands are written (one in flight): deliver reply by reply
+    answered = 0
+    guard = 0
+    while answered < case["answered"] and pipe.pending and guard < 50:
+        pipe.deliver(None)
+        answered += 1
+        guard += 1
+    if pipe.pending and case["partial"]:
+        pipe.deliver(min(case["partial"], max(0, len(pipe.pending) - 1)))
+    pending_before = [(api, w) for api, w, _ in watches if w is not None and w.pending]
+    done_before = [(api, w) for api, w, _ in watches if w is not None and not w.pending]
+    pipe.lose(REASONS[case["reason"]]())
+    post = []
+    for api, n in case["post"]:
+        d = call(api, n)
+        post.append((api, Watch(d) if d is not None else None))
+    where = " [calls=%r answered=%d partial=%d]" % (case["calls"], answered, case["partial"])
+    if raised:
+        res.bad("api-raised", "%s raised %s%s" % (raised[0][0], raised[0][1], where))
+    if pipe.escaped:
+        res.bad("exception-escaped", repr(pipe.escaped[0]) + where)
+    if pipe.transport.writes_after_loss:
+        res.bad("write-after-loss", "%r%s" % (pipe.transport.writes_after_loss[:3], where))
+    for api, w in done_before:
+        if w.fired != 1:
+            res.bad("fires-twice/api-answered", "%s() answered before the loss fired %d times%s" % (api, w.fired, where))
+    for api, w in pending_before:
+        _expect_disconnect(res, w, "%s() unanswered at the loss" % api, where, "api-" + api)
+        res.label("unanswered:" + api)
+    for api, w in post:
+        if w is None:
+            continue
+        _expect_disconnect(res, w, "%s() called after the loss" % api, where, "api-post-loss-" + api)
+        res.label("post-loss:" + api)
+    res.nontrivial = len(pending_before) >= 2 or (len(pending_before) >= 1 and len([1 for _a, w in post if w]) >= 1)
+    res.label("reason-" + case["reason"])
+    return res
+
+
+DRIVERS = {"cut": drive_cut, "allcuts": drive_allcuts, "api": drive_api}
 
 MANIFEST = {
     "text": "Fault enumeration: connectionLost injected at every byte offset of generated sessions' server stream "
             "(authentication handshake included) and at random offsets of many more sessions, crossed with close "
             "reasons, when_disconnected() requests before/after and 0..4 further submissions after the loss. Oracle "
             "per command Deferred: exactly-once firing, C01 model if answered before the cut, TorDisconnectError "
-            "otherwise; plus no write after loss, queue_command never raises, every when_disconnected() fired once.",
+            "otherwise; plus no write after loss, queue_command never raises, every when_disconnected() fired once. "
+            "Driver api repeats it through get_info*/get_conf*/set_conf/signal/add|remove_event_listener: the Deferred "
+            "the method returned must fail once with TorDisconnectError.",
     "note": "Trusted: reference reply model, fake transport; loss is delivered between dataReceived calls.",
     "technique": "property-based testing (Hypothesis) with exhaustive crash-point enumeration inside each generated session",
     "design_ref": "DESIGN.md section 4, C03",
 }
 
 MUTANTS = [
+    ("get-conf-swallows-failure", "txtorcon/torcontrolprotocol.py",
+     "        d = self.queue_command('GETCONF %s' % ' '.join(args))\n        d.addCallback(parse_keywords, raw_values=True)\n",
+     "        d = self.queue_command('GETCONF %s' % ' '.join(args))\n        d.addCallback(parse_keywords, raw_values=True).addErrback(log.err)\n"),
+    ("get-info-single-swallows-failure", "txtorcon/torcontrolprotocol.py",
+     "        d = self.get_info_raw(key)\n",
+     "        d = self.get_info_raw(key)\n        d.addErrback(lambda f: 'key=')\n"),
     ("only-inflight-errbacked", "txtorcon/torcontrolprotocol.py",
      "        outstanding = [self.command] + self.commands if self.command else self.commands",
      "        outstanding = [self.command] if self.command else []"),
@@ -415,3 +578,4 @@ MUTANTS = [
 def run(ctx):
     ctx.search("cut", cut_cases(), quick=1500, thorough=10000)
     ctx.search("allcuts", sessions(), quick=100, thorough=350)
+    ctx.search("api", api_cases(), quick=600, thorough=6000)
